@@ -55,6 +55,13 @@ claimed.update({
    technique="explicit enumeration of field paths x derivations x sides with snapshots; exhaustive short call histories",
    design="5/C12"),
 })
+claimed.update({
+ "C07": dict(
+   text="Explicit-state search over Document construction histories: all distinct documents within 2 (thorough 3) steps of the all-nil message, NewDocument() and a well-formed base, over a 69-step menu (nil metadata/node list, empty and duplicate ids, out-of-range enum numbers, dangling edges/roots, cycles, 0..n roots, document types with every subset of optional fields), as built and after a protobuf round trip, through all 8 serializers via the real writer under recover: error xor output, no panic/exit/hang, two serializations equal up to timestamps and array order; plus all serialization histories of length <=2 (thorough 3) over 6 documents x 3 formats whose last output must equal the output of the same call made first in a fresh process.",
+   note="Trusted: JSON normalisation (timestamps removed, arrays sorted); nil elements of repeated fields excluded (not message values).",
+   technique="explicit-state BFS over construction histories x formats; exhaustive short serialization histories vs fresh-process references",
+   design="5/C07"),
+})
 pending = {}
 all_ids = ["C%02d" % i for i in range(1, 21)]
 checks = []
